@@ -90,7 +90,16 @@ def gen_one(rng, i, tier):
             for j in range(len(xs)):
                 if rng.random() < 0.25:
                     xs[j] = rng.choice([math.inf, -math.inf])
+    if rng.random() < 0.05:
+        # populations beyond 32-bit counters (a vendor reports "3 billion easy rejections"): cells are Python / int64 integers
+        big_ = rng.choice([2**31, 2**31 + 7, 3 * 10**9, 2**32 + 1, 2**40 + 3])
+        if rng.random() < 0.5:
+            ep = big_
+        else:
+            en = big_
     return {"stream": stream, "pos": pos, "neg": neg, "ep": ep, "en": en, "sc": sc, "ec": ec,
+            # the flag in its other usual forms: np.bool_ (what np.all(np.diff(x) >= 0) returns) and 0 / 1
+            "sorted_form": rng.choice(["bool", "bool", "np", "int"]),
             "sorted": rng.random() < 0.3, "ts": ts, "shape": shape, "dtype": dtype,
             "via": rng.choice(["ctor", "ctor", "from_labels"]),
             "poslabel": rng.choice([1, 0, "a", 7]),
@@ -121,6 +130,9 @@ def _tags(inp):
     if any(math.isinf(x) for x in inp["ts"]):
         t.append("inf-threshold")
     t.append("dtype=" + str(inp.get("dtype")))
+    t.append("is_sorted-form=" + inp.get("sorted_form", "bool"))
+    if max(inp["ep"], inp["en"]) >= 2**31:
+        t.append("easy>=2^31")
     if inp.get("route"):
         t.append("route=" + inp["route"])
     if any(isinstance(x, float) and math.isinf(x) for x in inp["pos"] + inp["neg"]):
@@ -152,8 +164,9 @@ def build(inp) -> Case:
     if srt:  # caller's contract: arrays already sorted
         pos, neg = sorted(pos), sorted(neg)
     pre = []
+    srt_arg = {"np": np.bool_(srt), "int": int(srt)}.get(inp.get("sorted_form", "bool"), srt)
     kw = dict(nb_easy_pos=inp["ep"], nb_easy_neg=inp["en"], score_class=inp["sc"],
-              equal_class=inp["ec"], is_sorted=srt)
+              equal_class=inp["ec"], is_sorted=srt_arg)
     pl = inp["poslabel"]
     other = "zz" if isinstance(pl, str) else pl + 1
     labels = [pl] * len(pos) + [other] * len(neg)
@@ -190,7 +203,12 @@ def build(inp) -> Case:
             s, mpos, mneg, o_ep, o_en, o_sc, o_ec = r_
             srt = False
     tarr = np.array(inp["ts"], dtype=float).reshape(inp["shape"])
-    cm = s.cm(tarr)
+    r_cm = common.call(s.cm, tarr)
+    if r_cm[0] == "exc":
+        return Case(ID, inp, [], lambda outs: [], _tags(inp), 0,
+                    [Issue("PROPFAIL", "raises", f"cm({inp['ts'][:4]}) raised {r_cm[1]}: {r_cm[2]} (ep={o_ep}, en={o_en}, "
+                           f"cfg {o_sc},{o_ec})", f"cm/raises/{r_cm[1]}")])
+    cm = r_cm[1]
     mat = np.asarray(cm.matrix)
     if list(mat.shape) != list(inp["shape"]) + [2, 2]:
         pre.append(Issue("PROPFAIL", "shape", f"cm shape {mat.shape} for thresholds {inp['shape']}", "cm/shape"))
